@@ -24,7 +24,7 @@ import (
 // accepted iff backlog + n <= M, and counter == true backlog after every operation.
 
 type SStep struct {
-	K     string `json:"k"` // block, unblock, write, writev, sendfile, truncnext
+	K     string `json:"k"`             // block, unblock, write, writev, sendfile, truncnext
 	Rel   string `json:"rel,omitempty"` // fit, abs
 	Delta int    `json:"delta,omitempty"`
 	N     int    `json:"n,omitempty"`
